@@ -379,7 +379,7 @@ func mentionsSrc(c *Case) bool {
 				continue
 			}
 			for _, tp := range it.TParams {
-				if tp.Constraint == "method" || tp.Constraint == "localkey" || tp.Constraint == "markerunion" {
+				if tp.Constraint == "method" || tp.Constraint == "localkey" || tp.Constraint == "markerunion" || tp.Constraint == "srcunion" || tp.Constraint == "srcapprox" {
 					return true
 				}
 			}
